@@ -201,7 +201,7 @@ def lattice(r, tier):
                       ("pow", ["i=2"]), ("pow", ["i=3"]), ("pow", [ftoken(0.5)]), ("square", []), ("sqrt", []), ("cbrt", [])):
             reqs.append(" ".join(["O", op, me] + a))
     pairs = list(itertools.product(selves, selves))
-    if tier == "quick":
+    if False and tier == "quick":          # the complete pairing lattice (64 120 requests, 15 s) runs in every tier
         keep = [p for p in pairs if p[0][1] == p[1][1]] + r.sample(pairs, 260)
         pairs = keep
     for (f1, s1), (f2, s2) in pairs:
